@@ -421,13 +421,14 @@ func c11FaultProbe(t *T) {
 	defer beginTrial(t, false)()
 	src, _ := mem.NewFS()
 	data := uniqueData(1, 2000)
-	must(t, hackpadfs.WriteFullFile(src, "f", data, 0644))
+	must(t, src.Mkdir("d", 0755))
+	must(t, hackpadfs.WriteFullFile(src, "d/f", data, 0644))
 	storeIn, _ := mem.NewFS()
 	store := &capCore{t: t, inner: storeIn, faultAt: -1, label: "store."}
 	cfs, err := cache.NewReadOnlyFS(src, newCapFS(store, []string{"OpenFile", "Mkdir"}).(cacheStoreIface), cache.ReadOnlyOptions{})
 	must(t, err)
 	store.faultKind, store.faultAt = "file.Write", 2 // the third chunk
-	if f, err := cfs.Open("f"); err == nil {
+	if f, err := cfs.Open("d/f"); err == nil {
 		f.Close()
 		if store.fired != "" {
 			t.Fail("fault-not-reported", "C11:fault=store."+store.fired+":open-returns-no-error", "Open returned nil")
@@ -435,7 +436,7 @@ func c11FaultProbe(t *T) {
 	}
 	t.Logf("store calls: %v fired=%q", store.calls, store.fired)
 	store.faultAt = -1
-	f, err := cfs.Open("f")
+	f, err := cfs.Open("d/f")
 	if err != nil {
 		return
 	}
